@@ -156,6 +156,16 @@ def scenarios(rng: random.Random, tier: str):
                "rx 1 " + nodegen.cer("peer1.x", "4", nxt(), nxt()), f"adv {idle + 1}", "rx 1 " + nodegen.dwa(nxt(), nxt()),
                f"adv {idle + 1}", f"adv {dwa + 1}", "acc", "rx 2 " + nodegen.cer("peer1.x", "4", nxt(), nxt()), f"adv {idle + 1}"]
         out.append(line + " | " + " | ".join(evs))
+    # the capabilities exchange completes some seconds after the transport came up: the idle period starts at the last read
+    # (the CER / CEA), not at the accept / connect
+    for idle, dwa in ((5, 3), (3, 2)):
+        for late in (1, idle - 1, idle, idle + 2):
+            line = cfg_line(idle, dwa)
+            out.append(line + " | start | acc | adv %d | rx 0 %s | adv %d | adv 1 | adv 1 | adv %d" %
+                       (late, nodegen.cer("peer1.x", "4", nxt(), nxt()), idle - 1, dwa + 1))
+            line = cfg_line(idle, dwa, persistent=1)
+            out.append(line + " | start ok | adv %d | rx 0 %s | adv %d | adv 1 | adv 1 | adv %d" %
+                       (late, nodegen.cea(2001, "peer1.x", 2001, 268435464), idle - 1, dwa + 1))
     # two connections: one keeps talking (every read finds the clock advanced, no pass without a ready socket), the other is
     # silent: it gets its DWR when its idle timeout has passed and is given up when no DWA comes
     two_cfg = ("NODE host=node.local;realm=realm.local;idle={i};dwa={d};cer=50;cea=50;"
